@@ -51,6 +51,10 @@ mod time_types;
 
 pub mod tls_utils;
 
+#[cfg(pendulum_project_ntpd_rs_verif)]
+#[path = "/verif/hooks/ntp_proto_root.rs"]
+pub mod verif_hook;
+
 pub(crate) mod exitcode {
     /// An internal software error has been detected.  This
     /// should be limited to non-operating system related
